@@ -149,16 +149,20 @@ BindKeys(ks, i) == [k \in {ks[j].k : j \in 1..Len(ks)} |->
 Silent(x32, inev) == Item(Merge(inev, [k \in {"dur"} |-> VR(x32)]), "note", 0, <<>>, FALSE, x32 * N(inev, "stretch", 32) * (U \div 1024))
 SilentU(dU) == Item([k \in {"dur"} |-> VR(0)], "note", 0, <<>>, FALSE, dU)
 
-RECURSIVE EvSeq(_, _, _), CatSeq(_, _, _, _), DurCut(_, _, _, _, _), ParLoop(_, _, _, _, _, _, _)
+RECURSIVE EvSeq(_, _, _), CatSeq(_, _, _, _), DurCut(_, _, _, _, _, _), ParLoop(_, _, _, _, _, _, _)
 \* items a pattern yields for input event inev; base = first free mono reference
 CatSeq(l, inev, i, base) == IF i > Len(l) THEN <<>> ELSE EvSeq(l[i], inev, base + 10 * i) \o CatSeq(l, inev, i + 1, base)
-\* Pdur(d, p): events until their deltas reach d; the last delta is cut so that the total is exactly d
-DurCut(its, i, elapsed, X, out) ==
+\* Pdur(d, p, tolerance): events until the elapsed time, rounded UP to a multiple of the tolerance, reaches d; that
+\* event's delta is replaced by the time left, so that the total is exactly d (the *unrounded* elapsed time is what
+\* accumulates).  T = 0 stands for a tolerance finer than the time lattice (the default 0.001 s): elapsed >= d.
+CeilDiv(a, b) == 0 - ((0 - a) \div b)
+ReachedU(x, X, T) == IF T <= 0 THEN x >= X ELSE CeilDiv(x, T) * T >= X
+DurCut(its, i, elapsed, X, T, out) ==
     IF i > Len(its) THEN out
     ELSE LET d == DeltaOf(its[i]) IN
-         IF its[i].ty = "mono_off" THEN DurCut(its, i + 1, elapsed, X, Append(out, its[i]))
-         ELSE IF elapsed + d >= X THEN Append(out, WithDelta(its[i], X - elapsed))
-         ELSE DurCut(its, i + 1, elapsed + d, X, Append(out, its[i]))
+         IF its[i].ty = "mono_off" THEN DurCut(its, i + 1, elapsed, X, T, Append(out, its[i]))
+         ELSE IF ReachedU(elapsed + d, X, T) THEN Append(out, WithDelta(its[i], X - elapsed))
+         ELSE DurCut(its, i + 1, elapsed + d, X, T, Append(out, its[i]))
 \* monos switched on but not off inside its: released when the player's stream ends
 OpenMonos(its) == {i \in 1..Len(its) : its[i].ty = "mono_on" /\ ~\E j \in 1..Len(its) : its[j].ty = "mono_off" /\ its[j].mono = its[i].mono}
 MonoOff(on) == Item(<<>>, "mono_off", on.mono, <<>>, on.gate, 0)
@@ -193,7 +197,7 @@ EvSeq(E, inev, base) ==
            LET inner == EvSeq(E.l[2], inev, base) n == Min2(Len(inner), BindLen(E.l[1].ks)) IN
            [i \in 1..n |-> [inner[i] EXCEPT !.e = Merge(@, BindKeys(E.l[1].ks, i))]]
       [] E.t = "delta" -> (IF E.x > 0 THEN <<Silent(E.x, inev)>> ELSE <<>>) \o EvSeq(E.p, inev, base)
-      [] E.t = "dur" -> LET cut == DurCut(EvSeq(E.p, inev, base), 1, 0, E.x * (U \div 32), <<>>)
+      [] E.t = "dur" -> LET cut == DurCut(EvSeq(E.p, inev, base), 1, 0, E.x * (U \div 32), E.tl * (U \div 32), <<>>)
                             open == OpenMonos(cut) IN
                         IF open = {} THEN cut ELSE Append(cut, MonoOff(cut[CHOOSE i \in open : TRUE]))
       [] E.t = "par" -> LET cs == [i \in 1..Len(E.l) |-> EvSeq(E.l[i], inev, base + 10 * i)] IN
